@@ -82,6 +82,9 @@ def run(ck: Check):
             ck.disagree("a supported conv/pool stack is refused by the compiler", case, observed=repr(e)[:200], signature=dict(sig, what="refused"))
             continue
         text = net.get_c_code()
+        if net.get_c_code() != text:
+            ck.disagree("generating the C code twice from one CompiledLogicNet gives two different programs", case,
+                        signature=dict(sig, what="regenerate"))
         ref_rows, _ = nets.input_rows(rng, n_in, 9 if ck.tier == "quick" else 12, n_random=128)
         ref = [nets.eval_spec(spec, r) for r in ref_rows]
         n_out = len(ref[0])
